@@ -515,6 +515,7 @@ fn classify(msg: &str) -> u64 {
                         5 if r.starts_with("reasons cannot be set, but is set for: ") => 4,
                         5 if r.starts_with("point is invalid: ") => 5,
                         6 if r.starts_with("invalid type in found in general names: ") => 1,
+                        6 if r == "no general names found" => 6,
                         _ => 9,
                     };
                     200 + 10 * x + sub
